@@ -615,6 +615,12 @@ def run(run):
     opchecks.check(run, vm, 'OPERANDCHECK')
     errdisc(run, fx)
     nestguard(run, vm)
+    from .util import OnlyRules as _Only
+    from . import c09 as c09_
+    try:
+        c09_.telescope(_Only(run, ['NOGLOBAL'], {'NOGLOBAL': 'VALIDATOR'}, soft=True))      # telemetry build: the process-wide allocation counter does not point into a face that has been destroyed (shared with C09)
+    except Exception as ex:
+        run.observe('telemetry scope rule of C09 could not be evaluated here: %s' % ex)
     from .util import share as _share
     if not getattr(run, '_sharing', False):
         run._sharing = True
